@@ -28,6 +28,7 @@ import (
 	"runtime"
 	"sort"
 	"strings"
+	"sync"
 
 	dbm "github.com/gnolang/gno/tm2/pkg/db"
 	"github.com/gnolang/gno/tm2/pkg/db/memdb"
@@ -132,11 +133,20 @@ func (w *world) describe() string {
 	return sb.String()
 }
 
+// violation keys seen in this run (all of them; vf caps what it prints)
+var (
+	vkMu   sync.Mutex
+	vkSeen = map[string]int{}
+)
+
 func (w *world) fail(key string, f string, a ...any) {
 	if *w.failed {
 		return
 	}
 	*w.failed = true
+	vkMu.Lock()
+	vkSeen[key]++
+	vkMu.Unlock()
 	ops := *w.log
 	if len(ops) > 400 {
 		ops = ops[len(ops)-400:]
@@ -1065,6 +1075,9 @@ func run(c *vf.Ctx) {
 	c.Parallel(nseq, workers, 1000, func(i int, rng *rand.Rand) { runStack(c, i, rng, nops) })
 	c.Logf("stack sequences done")
 	c.Parallel(nmulti, workers, 5000000, func(i int, rng *rand.Rand) { runMulti(c, i, rng, nops) })
+	if len(vkSeen) > 0 {
+		c.Set("violation_key_counts", vkSeen)
+	}
 	c.Assume("the ordered-map overlay model in checks/c22/model.go is the reference")
 	c.Assume("a layer is mutated directly only while it is the top of its stack (cache wraps keep stale reads of a parent written underneath by design)")
 	c.Assume("CollectingDB iterators read the underlying DB only, point reads see pending ops (documented in collecting.go)")
